@@ -205,13 +205,14 @@ func vType(id int) types.Type {
 	return vPool[id]
 }
 
+// vTypeU returns the pool type with the given id after giving it the requested
+// underlying type (the engine's vTypeU(id, u) is identical to vType(id), so the
+// native twin must be the very same named type).
 func vTypeU(id int, under types.Type) types.Type {
-	for len(vPool) <= id {
-		vType(len(vPool))
+	t := vType(id)
+	if n, ok := t.(*types.Named); ok {
+		n.SetUnderlying(under)
 	}
-	tn := types.NewTypeName(token.NoPos, vPoolPkg, fmt.Sprintf("T%d", id), nil)
-	t := types.NewNamed(tn, under, nil)
-	vPoolIdx[t] = id
 	return t
 }
 
